@@ -229,8 +229,16 @@ func encMut(x *hx.Ctx, n, t, j int, mut string) {
 		H = s.Point().Add(H, dP)
 		all = true
 	}
+	Xc, sHc, encc := append([]kyber.Point{}, X...), append([]kyber.Point{}, sH...), append([]*pvss.PubVerShare{}, enc...)
 	_, E, err := pvss.VerifyEncShareBatch(s, H, X, sH, pub, enc)
 	x.NoErr("VerifyEncShareBatch", err)
+	sameLists := len(X) == len(Xc) && len(sH) == len(sHc) && len(enc) == len(encc)
+	for i := 0; sameLists && i < len(Xc); i++ {
+		sameLists = X[i] == Xc[i] && sH[i] == sHc[i] && enc[i] == encc[i]
+	}
+	x.Require("VerifyEncShareBatch leaves the caller's lists unchanged (entries and order)", sameLists)
+	_, E2, err := pvss.VerifyEncShareBatch(s, H, X, sH, pub, enc)
+	x.Require("a second VerifyEncShareBatch over the same lists gives the same result", err == nil && len(E2) == len(E))
 	if mut == "S.I" {
 		x.Outcome("S.I mutation accepted count", len(E))
 		return
@@ -288,8 +296,16 @@ func decMut(x *hx.Ctx, n, t, j int, mut string) {
 	case "S.I":
 		dec[j].S.I = uint32(k)
 	}
+	Xc, encc, decc := append([]kyber.Point{}, X...), append([]*pvss.PubVerShare{}, enc...), append([]*pvss.PubVerShare{}, dec...)
 	D, err := pvss.VerifyDecShareBatch(s, st.G, X, enc, dec)
 	x.NoErr("VerifyDecShareBatch", err)
+	sameLists := len(X) == len(Xc) && len(enc) == len(encc) && len(dec) == len(decc)
+	for i := 0; sameLists && i < len(Xc); i++ {
+		sameLists = X[i] == Xc[i] && enc[i] == encc[i] && dec[i] == decc[i]
+	}
+	x.Require("VerifyDecShareBatch leaves the caller's lists unchanged (entries and order)", sameLists)
+	D2, err := pvss.VerifyDecShareBatch(s, st.G, X, enc, dec)
+	x.Require("a second VerifyDecShareBatch over the same lists gives the same result", err == nil && len(D2) == len(D))
 	if mut == "S.I" {
 		// the index is not covered by the decryption proof; with a wrong index recovery must not return the secret
 		rec, err := pvss.RecoverSecret(s, st.G, X[:t], enc[:t], dec[:t], uint32(t), uint32(n))
